@@ -35,6 +35,13 @@ fn atoms() -> Vec<T> {
         ".[]?[]?",
         "if . then .[0]? else . end",
         "recurse(.[]?; . != 1)",
+        // positions computed from the input, under heads other than `.`
+        ".[.a]?",
+        "(.b)[.a]?",
+        "(.a, .b)[.a]?",
+        ".b[.a]?",
+        "(.b)[.a:]?",
+        ".[.[0]?]?",
     ] {
         v.push(p(a));
     }
@@ -78,6 +85,12 @@ pub fn inputs(quick: bool) -> Vec<RVal> {
     out.push(RVal::Bool(false));
     out.push(RVal::Float(1.5));
     out.push(rv::bs(b"ab"));
+    // text with multi-byte characters (slice paths count characters) and containers that hold positions for others
+    out.push(rv::s("Möwe"));
+    out.push(rv::s("a😀b"));
+    out.push(crate::eval_const("{\"a\":\"b\",\"b\":{\"a\":7,\"b\":8}}"));
+    out.push(crate::eval_const("{\"a\":1,\"b\":[[5],[6,7]]}"));
+    out.push(crate::eval_const("[1,[2,3],[4]]"));
     // distinct
     let mut seen = std::collections::HashSet::new();
     out.retain(|v| seen.insert(v.to_string()));
@@ -144,7 +157,7 @@ pub fn main(tier: Tier) -> ! {
         // every 4th tree of the depth-2 enumeration plus all scalars (the quick tier's input alphabet)
         let all = inputs(true);
         let n = all.len();
-        all.into_iter().enumerate().filter(|(i, _)| i % 4 == 0 || *i + 6 >= n || *i < 3).map(|(_, v)| v).collect()
+        all.into_iter().enumerate().filter(|(i, _)| i % 4 == 0 || *i + 8 >= n || *i < 3).map(|(_, v)| v).collect()
     } else {
         inputs(false)
     };
